@@ -269,3 +269,15 @@ M("c19-comp-elt-skipped", "C19", "idents-fields", (P, "                for if_ i
 M("c19-expression-keeps-own-bindings", "C19", "idents-consumers", (PT, "        ).difference(self.code.declared_identifiers)\n\n    def __repr__(self):\n        return \"Expression(", "        )\n\n    def __repr__(self):\n        return \"Expression("))
 M("c19-printer-counts-comment-quotes", "C19", "remargin-siblings", (PG, "                m = re.match(r\".*?(\\\"\\\"\\\"|\\'\\'\\'|#)\", line)\n                if not m or m.group(1) == \"#\":\n                    break", "                m = re.match(r\".*?(\\\"\\\"\\\"|\\'\\'\\')\", line)\n                if not m:\n                    break"))
 M("c19-benign-rename-helper", "C19", "silent", (AU, "        # conditional expressions and lambdas bind looser than any\n", "        # (comment) conditional expressions and lambdas bind looser than any\n"))
+
+# ---------------------------------------------------------------- C20
+EXT = "mako/ext/extract.py"
+BB = "mako/ext/babelplugin.py"
+M("c20-filters-not-scanned", "C20", "dispatch-exhaustive", (EXT, '                if node.escapes:\n                    # the filters, which may be calls with arguments\n                    code = "%s | %s" % (code, node.escapes)\n', ""))
+M("c20-namespace-skipped", "C20", "descent", (EXT, "            elif isinstance(node, parsetree.NamespaceTag):\n                # the defs written inside of a <%namespace>\n                yield from self.extract_nodes(node.nodes)\n                continue\n", ""))
+M("c20-pagetag-dropped", "C20", "dispatch-exhaustive", (EXT, "            elif isinstance(node, parsetree.PageTag):\n                code = node.body_decl.code\n", ""))
+M("c20-block-children-skipped", "C20", "descent", (EXT, "            elif isinstance(node, parsetree.BlockTag):\n                code = node.body_decl.code\n                child_nodes = node.nodes", "            elif isinstance(node, parsetree.BlockTag):\n                code = node.body_decl.code"))
+M("c20-lineno-uncompensated", "C20", "offset-algebra", (EXT, "                code, node.lineno - 1, translator_strings", "                code, node.lineno, translator_strings"))
+M("c20-babel-off-by-one", "C20", "offset-algebra", (BB, "                code_lineno + (lineno - 1),", "                code_lineno + lineno,"))
+M("c20-text-scanned", "C20", "dispatch-exhaustive", (EXT, "            elif isinstance(node, parsetree.Expression):\n                code = node.code.code\n", "            elif isinstance(node, parsetree.Text):\n                code = node.content\n            elif isinstance(node, parsetree.Expression):\n                code = node.code.code\n"))
+M("c20-def-signature-dropped", "C20", "dispatch-exhaustive", (EXT, "                code = node.function_decl.code\n", "                code = ''\n"))
